@@ -1,5 +1,5 @@
 """C06 — the pattern matcher: local contracts."""
-MODULES = ["contracts.c06_matcher"]
+MODULES = ["contracts.c06_matcher", "contracts.c06_state"]
 
 MERGE = '''
 import sys
@@ -102,7 +102,64 @@ sys.exit(1 if bad else 0)
 '''
 
 
+STATE_SEARCH = '''
+# bounded search replay on the REAL MatchResult: random sequences of enter / bind / bind_value / bind_node / abandon / merge against an
+# independent reference (a stack of plain dicts with the documented meaning)
+import random, sys
+from onnxscript.rewriter import _basics
+class P:  # stands for a ValuePattern / NodePattern
+    def __init__(self, name=None): self.name = name
+rng = random.Random(0)
+bad = 0
+for trial in range(3000):
+    m = _basics.MatchResult()
+    ref = [dict(b={}, v={}, n={}, nodes=[], ok=True)]
+    pats = [P() for _ in range(3)]; npats = [P() for _ in range(3)]
+    log = []
+    for step in range(rng.randint(1, 12)):
+        op = rng.choice(["enter", "bind", "bind_value", "bind_node", "abandon", "merge", "lookup"])
+        if not ref[-1]["ok"] and op not in ("abandon",):
+            continue
+        log.append(op)
+        if op == "enter":
+            m.enter_new_match(); ref.append(dict(b={}, v={}, n={}, nodes=[], ok=True))
+        elif op in ("bind", "bind_value"):
+            key = rng.choice("xyz") if op == "bind" else rng.choice(pats); val = rng.randint(0, 2); tab = "b" if op == "bind" else "v"
+            got = m.bind(key, val) if op == "bind" else m.bind_value(key, val)
+            hit = [r[tab][key] for r in ref if key in r[tab]]
+            if hit: want = hit[0] == val
+            else: ref[-1][tab][key] = val; want = True
+            if not want: ref[-1]["ok"] = False
+            if got != want or bool(m) != ref[-1]["ok"]:
+                print("trial", trial, log, ":", op, "returned", got, "match ok", bool(m), "- expected", want, ref[-1]["ok"]); bad += 1; break
+        elif op == "bind_node":
+            pn = rng.choice(npats); nd = rng.randint(0, 5)
+            m.bind_node(pn, nd); ref[-1]["n"][pn] = nd; ref[-1]["nodes"].append(nd)
+        elif op == "lookup":
+            pn = rng.choice(npats); hit = [r["n"][pn] for r in ref if pn in r["n"]]
+            got = m.lookup_node(pn)
+            if (got is None) != (not hit) or (hit and got not in hit):
+                print("trial", trial, log, ": lookup_node gives", got, "bindings on the stack:", hit); bad += 1; break
+        elif len(ref) >= 2 and op == "abandon":
+            m.abandon_current_match(); ref.pop()
+        elif len(ref) >= 2 and op == "merge" and ref[-2]["ok"]:
+            m.merge_current_match(); c = ref.pop()
+            ref[-1]["b"].update(c["b"]); ref[-1]["v"].update(c["v"]); ref[-1]["n"].update(c["n"]); ref[-1]["nodes"] += c["nodes"]
+        cur = m._partial_matches[-1]
+        if len(m._partial_matches) != len(ref) or any(
+                (dict(pm.bindings), dict(pm.value_bindings), dict(pm.node_bindings), list(pm.nodes)) != (r["b"], r["v"], r["n"], r["nodes"])
+                for pm, r in zip(m._partial_matches, ref)):
+            print("trial", trial, log, ": state differs from the reference:",
+                  [(dict(pm.bindings), len(pm.value_bindings), len(pm.node_bindings), list(pm.nodes)) for pm in m._partial_matches], "vs",
+                  [(r["b"], len(r["v"]), len(r["n"]), r["nodes"]) for r in ref]); bad += 1; break
+    if bad >= 3: break
+sys.exit(1 if bad else 0)
+'''
+
+
 def replay(ob):
+    if ".any_depth." in ob["name"] or (".loop" in ob["name"] and ob["name"].startswith("MatchResult.")):
+        return STATE_SEARCH
     if "valid_to_replace" in ob["name"]:
         from props import C07
         return C07.NOT_REMOVABLE
